@@ -395,9 +395,20 @@ func c07ConcSetup(prm c07ConcParams) func(c *fw.Ctx, name string) explore.Setup 
 // must carry only B's data and B's calls must succeed.
 type c07WParams struct {
 	K connCfg
+	// Prop: the property whose clause is judged on B's wire ("" = C07). The same
+	// three-party history is registered under C01 (B's messages arrive intact),
+	// C02 (B's stream is well-formed) and C16 (nothing follows B's Close frame).
+	Prop string
 }
 
 func (p c07WParams) name() string { return "wconc/" + p.K.String() }
+
+func (p c07WParams) prop() string {
+	if p.Prop == "" {
+		return "C07"
+	}
+	return p.Prop
+}
 
 func c07WSetup(prm c07WParams) func(c *fw.Ctx, name string) explore.Setup {
 	return func(c *fw.Ctx, name string) explore.Setup {
@@ -421,6 +432,9 @@ func c07WSetup(prm c07WParams) func(c *fw.Ctx, name string) explore.Setup {
 					for i := 0; i < 2; i++ {
 						bErrs = append(bErrs, b.Write(bg, websocket.MessageBinary, bytes.Repeat([]byte{'B'}, 300)))
 					}
+					if prm.Prop == "C16" {
+						b.Close(websocket.StatusNormalClosure, "") // the peer never answers: 5 s virtual
+					}
 					b.CloseNow()
 				})
 			})
@@ -429,8 +443,9 @@ func c07WSetup(prm c07WParams) func(c *fw.Ctx, name string) explore.Setup {
 					return
 				}
 				role := k.String()
+				P := prm.prop()
 				if w.Panic != "" {
-					violate(c, w, name, "C07/panic/wconc/"+role, w.Panic)
+					violate(c, w, name, P+"/panic/wconc/"+role, w.Panic)
 					return
 				}
 				if w.Deadlock || w.HorizonHit {
@@ -440,28 +455,58 @@ func c07WSetup(prm c07WParams) func(c *fw.Ctx, name string) explore.Setup {
 				c.OutcomeStr(fmt.Sprintf("%s|berr=%v|bout=%d", name, bErrs, len(pb.Out)/1000))
 				for i, err := range bErrs {
 					if err != nil {
-						violate(c, w, name, "C07/other-connection-disturbed/write/"+role, fmt.Sprintf("connection B (fresh, healthy transport) failed its write %d with %q while connection A was being closed: they share a pooled object", i, err))
+						violate(c, w, name, P+"/other-connection-disturbed/write/"+role, fmt.Sprintf("connection B (fresh, healthy transport) failed its write %d with %q while connection A was being closed: they share a pooled object", i, err))
 						return
 					}
 				}
 				res := frame.Validate(pb.Out, frame.StreamRules{SenderIsClient: k.Client})
 				for _, v := range res.Violations {
-					violate(c, w, name, "C07/foreign-bytes-on-the-wire/"+role, fmt.Sprintf("connection B's transport carries a malformed stream (%v): bytes of another connection were flushed into it", v))
+					violate(c, w, name, P+"/foreign-bytes-on-the-wire/"+role, fmt.Sprintf("connection B's transport carries a malformed stream (%v): bytes of another connection were flushed into it", v))
 					return
 				}
 				for _, m := range res.Messages {
 					for _, by := range m.Payload {
 						if by != 'B' {
-							violate(c, w, name, "C07/foreign-bytes-on-the-wire/"+role, fmt.Sprintf("connection B's transport carries a message containing byte %q; B only ever wrote 'B'", by))
+							violate(c, w, name, P+"/foreign-bytes-on-the-wire/"+role, fmt.Sprintf("connection B's transport carries a message containing byte %q; B only ever wrote 'B'", by))
 							return
 						}
 					}
 				}
+				if len(res.Messages) != 2 || len(res.Messages[0].Payload) != 300 || len(res.Messages[1].Payload) != 300 {
+					violate(c, w, name, P+"/messages-differ/wconc/"+role, fmt.Sprintf("B wrote two messages of 300 bytes (both calls returned nil); its peer receives %d message(s): %s", len(res.Messages), describeFrames(connFrames(pb.Out))))
+					return
+				}
+				if prm.Prop == "C16" {
+					seenClose := false
+					for _, f := range connFrames(pb.Out) {
+						if seenClose && (f.Opcode == frame.OpClose || f.Opcode <= frame.OpBinary) {
+							violate(c, w, name, "C16/frame-after-close/wconc/"+role, "a frame follows B's Close frame: "+describeFrames(connFrames(pb.Out)))
+							return
+						}
+						seenClose = seenClose || f.Opcode == frame.OpClose
+					}
+				}
 				if msg := c07PoolInvariant(); msg != "" {
-					violate(c, w, name, "C07/pool-double-put/wconc/"+role, msg)
+					violate(c, w, name, P+"/pool-double-put/wconc/"+role, msg)
 				}
 			}
 		}
+	}
+}
+
+// c07CrossScenarios: the wconc history judged for another property.
+func c07CrossScenarios(prop string) func(tier string) []scenario {
+	return func(tier string) []scenario {
+		var scs []scenario
+		for _, k := range []connCfg{{Client: true}, {Client: false}} {
+			prm := c07WParams{K: k, Prop: prop}
+			pw := explore.Config{P: 1, Horizon: 60e9}
+			if tier == "thorough" {
+				pw.P = 2
+			}
+			scs = append(scs, scenario{Name: prm.name(), Cfg: pw, Setup: c07WSetup(prm)})
+		}
+		return scs
 	}
 }
 
@@ -548,6 +593,13 @@ func c07RaceScenarios(tier string) []scenario {
 }
 
 func init() {
+	for _, prop := range []string{"C01", "C02", "C16"} {
+		scs := c07CrossScenarios(prop)
+		fw.Register(fw.Part{Prop: prop, Name: "s.xconn",
+			Units:  func(tier string) []fw.Unit { return scenarioUnits(scs(tier)) },
+			Replay: replayFn(scs),
+		})
+	}
 	fw.Register(fw.Part{Prop: "C07R", Name: "s.race",
 		Units:  func(tier string) []fw.Unit { return scenarioUnits(c07RaceScenarios(tier)) },
 		Replay: replayFn(c07RaceScenarios),
